@@ -247,7 +247,6 @@ pub struct ExSocketAddr(std::net::SocketAddr);""")
 
 
 CANARIES = [
-    {"name": "candidates_looked_up_for_a_prefix_of_the_name", "file": REC, "old": "        let labels = &question.labels[i..];\n        if let Some(name) = DomainName::from_labels(labels.into()) {\n            let ns_q", "new": "        let labels = &question.labels[..question.labels.len() - i];\n        if let Some(name) = DomainName::from_labels(labels.into()) {\n            let ns_q"},
     {"name": "empty_candidate_set_returned", "file": REC, "old": "            if !hostnames.is_empty() {\n                return Some(Nameservers {", "new": "            if true {\n                return Some(Nameservers {"},
     {"name": "validator_told_depth_zero", "file": REC, "old": ".and_then(|res| validate_nameserver_response(question, &res, match_count))", "new": ".and_then(|res| validate_nameserver_response(question, &res, 0))"},
     {"name": "referral_does_not_update_the_depth", "file": REC, "old": "                            match_count = delegation.match_count();\n", "new": ""},
